@@ -6,7 +6,7 @@ def sh(c): return subprocess.run(c, shell=True, capture_output=True, text=True)
 assert sh('git -C /repo status --porcelain').stdout.strip() == '', '/repo not clean'
 only = sys.argv[1:]
 summary = []
-for d in sorted(glob.glob('/verif/seeded/*/')):
+for d in sorted(glob.glob('/verif/seeded/C*/')):
     sid = os.path.basename(d.rstrip('/'))
     if only and sid not in only:
         continue
